@@ -6,25 +6,6 @@ From PV Require Import Base.Prelude Base.Text Model.Locks Model.LocksOps.
 Open Scope string_scope.
 
 Definition known_C09_keys : list string :=
-   ["panic:Notify/Close:send-on-closed-channel";
-    "panic:Notify.dhcp/Close:send-on-closed-channel";
-    "panic:purge/Close:send-on-closed-channel";
-    "race:Close/Close:Session.closed";
-    "panic:Close/Close:close-of-closed-channel";
-    "race:arp.ProcessPacket/arp.Close:arp.closed";
-    "race:arp.spoofLoop/arp.Close:arp.closed";
-    "race:arp.Close/arp.Close:arp.closed";
-    "panic:arp.Close/arp.Close:close-of-closed-channel";
-    "race:icmp6.ProcessPacket.RA/icmp6.StartHunt:icmp6.huntList";
-    "race:icmp6.ProcessPacket.RA/icmp6.StopHunt:icmp6.huntList";
-    "race:icmp6.ProcessPacket.RA/icmp6.spoofLoop:icmp6.closeChan";
-    "race:icmp6.ProcessPacket.RA/icmp6.Close:icmp6.closed";
-    "race:icmp6.ProcessPacket.RA/icmp6.Close:icmp6.closeChan";
-    "panic:icmp6.ProcessPacket.RA/icmp6.Close:close-of-closed-channel";
-    "race:icmp6.spoofLoop/icmp6.Close:icmp6.closed";
-    "race:icmp6.Close/icmp6.Close:icmp6.closed";
-    "panic:icmp6.Close/icmp6.Close:close-of-closed-channel";
-    "race:dhcp4.Close/dhcp4.Close:dhcp4.closed";
-    "panic:dhcp4.Close/dhcp4.Close:close-of-closed-channel"].
+   [].
 
 Definition known_C09 (k : string) : bool := existsb (String.eqb k) known_C09_keys.
